@@ -49,6 +49,7 @@ var c18DomainSets = [][]string{
 	{"example.com", "x.app.example.com", "app.example.com"}, // three nested, scrambled
 	{"app.example.com", "other.org"},                        // two unrelated
 	{"other.org", ".app.example.com"},                       // two unrelated, other order, leading dot
+	{"example.org", "a.b.c.io"},                             // neither matches any host; the shortest STRING has the most labels
 }
 
 func c18Name(n int) string {
